@@ -421,6 +421,13 @@ pub struct TrState {
     pub notifies: u64,
     /// Number of notify events that arrived while DRIVER_OK was not set.
     pub notify_before_driver_ok: u64,
+    /// Fault: the device does not latch FEATURES_OK (it reads back clear), as a device does that
+    /// cannot work with the feature subset it was given.
+    pub features_ok_not_latched: bool,
+    /// The (model) transport does not reset the device when it is dropped - the trait does not
+    /// promise that; the library's own test transport behaves like this. Queues then stay live
+    /// until the driver disables them.
+    pub no_reset_on_drop: bool,
 }
 
 impl TrState {
@@ -432,6 +439,8 @@ impl TrState {
             status: 0,
             legacy: false,
             pci_like: false,
+            features_ok_not_latched: false,
+            no_reset_on_drop: false,
             queues: Vec::new(),
             isr: 0,
             config_gen: 0,
@@ -782,6 +791,8 @@ pub struct World {
     pub stats: Stats,
     /// Consecutive spin iterations during which the device could not do anything.
     pub idle_spins: u32,
+    /// consecutive `can_pop() == false` with no other driver activity in between
+    pub poll_empty_run: u32,
     /// Consecutive spin iterations the device stayed passive although it could progress.
     pub delayed_spins: u32,
     pub nontrivial: bool,
@@ -809,6 +820,8 @@ pub struct World {
     pub store_kinds: [u64; 5],
     /// Configuration versions the config agent may still install (C13), front first.
     pub cfg_versions: Vec<Vec<u8>>,
+    /// the configuration agent switches at two accesses in three instead of one in three
+    pub cfg_agent_eager: bool,
     /// Every configuration version the device has exposed so far (including the initial one).
     pub cfg_exposed: Vec<Vec<u8>>,
 }
@@ -950,6 +963,7 @@ impl World {
             violations: Vec::new(),
             stats: Stats::default(),
             idle_spins: 0,
+            poll_empty_run: 0,
             delayed_spins: 0,
             nontrivial: false,
             stop: false,
@@ -963,6 +977,7 @@ impl World {
             store_events: 0,
             store_kinds: [0; 5],
             cfg_versions: Vec::new(),
+            cfg_agent_eager: false,
             cfg_exposed: Vec::new(),
         }
     }
@@ -1000,6 +1015,7 @@ impl World {
     pub fn hal_event(&mut self, e: HalEv) {
         // platform calls are driver progress (a busy-wait loop that also consumes completions)
         self.idle_spins = 0;
+        self.poll_empty_run = 0;
         if let Some(t) = &mut self.trace {
             if t.len() < 100_000 {
                 // host pointers are not deterministic across processes: leave them out
@@ -1083,7 +1099,9 @@ impl World {
         if self.cfg_versions.is_empty() {
             return;
         }
-        if self.tape.choose(3) != 1 {
+        // one access in three, or two in three for an eager agent
+        let c = self.tape.choose(3);
+        if (self.cfg_agent_eager && c == 0) || (!self.cfg_agent_eager && c != 1) {
             return;
         }
         let v = self.cfg_versions.remove(0);
@@ -1111,6 +1129,7 @@ impl World {
         if kind != PointKind::Spin {
             // the driver is doing something other than spinning
             self.idle_spins = 0;
+            self.poll_empty_run = 0;
             if self.quiet {
                 return;
             }
